@@ -282,5 +282,8 @@ Termination        == <>Finished
 \* a queued task is eventually run even if stop is never reached (P2 depends on it)
 EveryTaskRuns      == \A t \in Task : <>(ended[t] = 1)
 
+\* used to make TLC print complete behaviours (simulation mode, -continue)
+NotFinished == ~Finished
+
 Safety == TypeOK /\ AtMostOnce /\ NoSelfConcurrency /\ ExactlyOnceAtEnd /\ PopSafe /\ LockDiscipline /\ SlotOrder /\ Complete
 =============================================================================
